@@ -125,6 +125,9 @@ def design(prop, tier):
             raise ToolError(f"design check {r['name']} violated {r['violated']} (see {r['out']})")
     return res
 
+# every n-th scenario of these properties is also run through the agent's local target
+LOCAL_SHARE = {"C01": 6, "C02": 8, "C03": 4, "C04": 3, "C15": 4, "C16": 6}
+
 LEVEL = {"C01": "model_checking", "C02": "model_checking", "C03": "model_checking", "C04": "model_checking",
          "C15": "model_checking", "C16": "model_checking"}
 
@@ -168,6 +171,19 @@ def check(prop, tier):
     rng = random.Random(seed())
     designs = design(prop, tier)
     scenarios, gens, counts = scenarios_for(prop, tier, rng)
+    # the same scenarios through the agent's other target: `local` spawns /usr/sbin/cli (a shim installed by
+    # bin/setup) and speaks NETCONF over the child's pipes - Session::junos_local() and JunosLocal::connect() as they are
+    if prop in LOCAL_SHARE and ensure_cli_shim():
+        step = LOCAL_SHARE[prop] if tier != "thorough" else max(1, LOCAL_SHARE[prop] // 2)
+        twins = []
+        for s in scenarios[::step]:
+            if s.get("daemon"):
+                continue
+            t = json.loads(json.dumps(s)); t["case"] = s["case"] + "-L"; t["target"] = "local"
+            t["meta"] = dict(t.get("meta") or {}, target="local")
+            twins.append(t)
+        scenarios += twins
+        counts["scenarios_through_the_local_target"] = len(twins)
     trace, stats, viols = run_and_validate(prop, tier, scenarios, wd)
     bycase = {s["case"]: s for s in scenarios}
     for v in viols:
